@@ -133,6 +133,10 @@ func marshalNoEscape(v any) []byte {
 
 var wsContents = []string{"hello", "<b>bold</b> & more", "line\nbreak\ttab \"quoted\" back\\slash", "sep   and  ", "astral \U0001F600\U0001F4A9", "ctl \u0001\u001f\u007f", "日本語", "literal \\u2028 and \\\\u2029 and \\u003c text", ""}
 
+// subscription ids are client-chosen strings that handlers echo: anything a
+// JSON string can hold
+var wsSubIDs = []string{"e", "e", "sub id ", "q\"uote\\", "ctl\u0001\u007f", "<&>", "sep\u2028\u2029", "日本\U0001F600", "\t\n"}
+
 func genWSMsg(t *rapid.T, c *WSCase, i int) *simrt.Msg {
 	mkEv := func(kind int64) *simrt.EvSpec {
 		e := simrt.EvSpec{Author: rapid.IntRange(0, 3).Draw(t, "author"), Kind: kind, CreatedAt: int64(rapid.IntRange(0, 2000000000).Draw(t, "created_at")),
@@ -232,7 +236,7 @@ func corruptFrame(t *rapid.T, m *simrt.Msg) wsFrame {
 		return string(b)
 	}
 	generic := []string{"binary", "invalid-utf8", "not-json", "unknown-label", "wrong-arity", "label-not-string", "trailing-garbage"}
-	evOnly := []string{"pubkey-off-curve", "sig-r-out-of-range", "uppercase-id", "short-id", "kind-negative", "kind-too-large", "kind-string", "altered-content", "altered-id", "altered-pubkey", "altered-sig", "forged-sig", "missing-sig", "tags-not-array", "extra-member"}
+	evOnly := []string{"pubkey-off-curve", "sig-r-out-of-range", "uppercase-id", "uppercase-sig", "mixedcase-sig", "uppercase-pubkey", "short-id", "kind-negative", "kind-too-large", "kind-string", "altered-content", "altered-id", "altered-pubkey", "altered-sig", "forged-sig", "missing-sig", "tags-not-array", "extra-member"}
 	reqOnly := []string{"negative-since", "negative-limit", "unknown-filter-key", "filter-not-object", "subid-number", "ids-uppercase", "kinds-string"}
 	pool := append([]string{}, generic...)
 	switch m.T {
@@ -264,6 +268,25 @@ func corruptFrame(t *rapid.T, m *simrt.Msg) wsFrame {
 	case "uppercase-id":
 		o := evObj()
 		o["id"] = strings.ToUpper(o["id"].(string))
+		f.Payload = marshalNoEscape([]any{m.T, o})
+	case "uppercase-sig", "mixedcase-sig", "uppercase-pubkey":
+		// the same bytes in another hex spelling: NIP-01 fixes lower case
+		o := evObj()
+		switch f.Kind {
+		case "uppercase-sig":
+			o["sig"] = strings.ToUpper(o["sig"].(string))
+		case "uppercase-pubkey":
+			o["pubkey"] = strings.ToUpper(o["pubkey"].(string))
+		default:
+			b := []byte(o["sig"].(string))
+			for i := range b {
+				if b[i] >= 'a' && b[i] <= 'f' {
+					b[i] -= 'a' - 'A'
+					break
+				}
+			}
+			o["sig"] = string(b)
+		}
 		f.Payload = marshalNoEscape([]any{m.T, o})
 	case "short-id":
 		o := evObj()
@@ -429,7 +452,7 @@ func (wsEngine) Gen(t *rapid.T, tier string) any {
 			Tags: [][]string{{"t", wsContents[(i+3)%len(wsContents)]}}})
 	}
 	for i, n := 0, rapid.IntRange(0, 8).Draw(t, "nemit"); i < n; i++ {
-		c.Emit = append(c.Emit, mwDown{T: rapid.SampledFrom([]string{"EOSE", "EVENT", "EVENT", "OK", "NOTICE", "CLOSED", "COUNT", "AUTH"}).Draw(t, "et"), Sub: fmt.Sprintf("e%d", i), Ev: rapid.IntRange(0, 2).Draw(t, "eev")})
+		c.Emit = append(c.Emit, mwDown{T: rapid.SampledFrom([]string{"EOSE", "EVENT", "EVENT", "OK", "NOTICE", "CLOSED", "COUNT", "AUTH"}).Draw(t, "et"), Sub: rapid.SampledFrom(wsSubIDs).Draw(t, "esub") + fmt.Sprintf("%d", i), Ev: rapid.IntRange(0, 2).Draw(t, "eev")})
 	}
 	for i, n := 0, rapid.IntRange(0, 3).Draw(t, "njumps"); i < n; i++ {
 		c.Jumps = append(c.Jumps, rapid.SampledFrom([]int{100, 1000, 4999, 5001, 61000}).Draw(t, "jump"))
